@@ -54,7 +54,7 @@ add("a4_nvs_full_d2", "msgpack",
     desc="whole recursion without stubs at depth limit 2 equals the reference sizer (fix-collections around scalars)",
     bounds="input any prefix of 4 symbolic bytes, no 16/32-bit collection headers; depth_limit = 2", functions=A_FUN,
     covers=["A4 collection with contents sized", "A4 depth limit exceeded"], tier="thorough",
-    props=["C04", "C18"], timeout=2400, mem_gb=24, replay="playback", best_effort=True)
+    props=["C04", "C18"], timeout=900, mem_gb=16, replay="playback", best_effort=True)
 
 
 # ---------------------------------------------------------------------------------------------
@@ -105,7 +105,7 @@ add("b4_utf8_step_err_quick", "yaml::encoding",
     props=["C12", "C07"], timeout=1800, mem_gb=12, assumptions=B4_ASM)
 add("b4_utf8_step_full", "yaml::encoding", desc="B4 with 3 pending chars and caller buffer 0..9 (covers the direct-encode loop for buffers >= 4 twice)",
     bounds="3 pending chars, remainder any, caller buffer 0..9", functions=B_FUN[4:7], covers=["B4 char split across two reads"],
-    tier="thorough", props=["C07", "C04", "C02"], timeout=3000, mem_gb=20, assumptions=B4_ASM, best_effort=True)
+    tier="thorough", props=["C07", "C04", "C02"], timeout=900, mem_gb=16, assumptions=B4_ASM, best_effort=True)
 add("b7_array_buffer_programs", "yaml::encoding",
     desc="ArrayBuffer<4>: every program of 4 operations (write, read, consume, set; fill_buf and is_empty observed after every step) behaves as a bounded FIFO: bytes come out in the order they were accepted, each once; is_empty exactly when everything accepted has been taken; write accepts what still fits; set replaces the content",
     bounds="capacity 4, 4 operations, operands 0..3 bytes of any value", functions=["yaml::encoding::ArrayBuffer::{new,unread,is_empty,set}", "<ArrayBuffer as Read>::read", "<ArrayBuffer as BufRead>::{fill_buf,consume}", "<ArrayBuffer as Write>::write"],
@@ -118,21 +118,21 @@ add("b5_encoder_utf16", "yaml::encoding",
     desc="Encoder::new(UTF-16) end to end through the real type wiring: output = reference UTF-8 of the decoded scalars, one leading BOM stripped, ill-formed -> Err",
     bounds="0..4 source bytes (2 units), both byte orders, every source windowing, caller buffers 1..5, <= 8 reads", functions=B_FUN,
     covers=["B5 surrogate pair through the composed encoder", "B5 lone BOM yields empty text"],
-    props=["C07", "C02"], timeout=3000, mem_gb=40, assumptions=B_SRC, tier="thorough", best_effort=True)
+    props=["C07", "C02"], timeout=900, mem_gb=16, assumptions=B_SRC, tier="thorough", best_effort=True)
 add("b5_encoder_utf32", "yaml::encoding", desc="Encoder::new(UTF-32) end to end, two units",
     bounds="0..8 source bytes, both byte orders, every windowing, caller buffers 1..5, <= 10 reads", functions=B_FUN,
-    covers=["B5 two supplementary chars"], tier="thorough", props=["C07", "C02"], timeout=3000, mem_gb=20, assumptions=B_SRC, best_effort=True)
+    covers=["B5 two supplementary chars"], tier="thorough", props=["C07", "C02"], timeout=900, mem_gb=16, assumptions=B_SRC, best_effort=True)
 add("b6_from_reader_prefix", "yaml::encoding",
     desc="Encoder::from_reader: for every windowing of the source the encoding is decided by the first min(4,len) bytes (reference table) and the peeked bytes are chained back: output = reference transcoding of the whole input",
     bounds="0..4 source bytes, all values, every windowing (incl. 1-byte first reads); one read of 12 bytes", functions=B_FUN,
     covers=["B6 utf16le text detected and re-encoded", "B6 utf32le detected"],
-    props=["C07", "C02", "C09"], timeout=3000, mem_gb=40, assumptions=B_SRC + B_COPY, replay="none", tier="thorough", best_effort=True)
+    props=["C07", "C02", "C09"], timeout=900, mem_gb=16, assumptions=B_SRC + B_COPY, replay="none", tier="thorough", best_effort=True)
 add("b6_from_reader_chain_back", "yaml::encoding",
     desc="Encoder::from_reader on a UTF-8 stream longer than the 4 peeked bytes: the output is the whole input, i.e. the peeked bytes are chained back in front of the rest, for every windowing",
     bounds="0..6 source bytes whose first two bytes are neither NUL nor BOM halves", functions=B_FUN, covers=["B6 utf8 passthrough keeps the peeked bytes"],
-    props=["C07", "C02", "C09"], timeout=3000, mem_gb=30, assumptions=B_SRC + B_COPY, replay="none", tier="thorough", best_effort=True)
+    props=["C07", "C02", "C09"], timeout=900, mem_gb=16, assumptions=B_SRC + B_COPY, replay="none", tier="thorough", best_effort=True)
 add("b6_from_reader_prefix_8", "yaml::encoding", desc="B6 with 0..8 source bytes", bounds="0..8 source bytes", functions=B_FUN,
-    covers=["B6 utf32le detected"], tier="thorough", props=["C07", "C02"], timeout=3000, mem_gb=20, assumptions=B_SRC + B_COPY, replay="none", best_effort=True)
+    covers=["B6 utf32le detected"], tier="thorough", props=["C07", "C02"], timeout=900, mem_gb=16, assumptions=B_SRC + B_COPY, replay="none", best_effort=True)
 
 
 # ---------------------------------------------------------------------------------------------
@@ -195,7 +195,7 @@ add("c3f_fused_reader_fault", "input",
 add("c3_handle_programs", "input",
     desc="the real Handle over Box<dyn Read>: up to 2 borrows (prefix request of any size, or 2 partial reads), then Input::from or Cow::try_from: Ref::Slice/Input::Slice only for a fully captured source and equal to the data; the owned reader replays the complete unaltered stream",
     bounds="data <= 3 B, every read schedule, <= 2 borrows", functions=C_FUN, covers=["C3 input became a slice", "C3 chained reader after look-ahead"],
-    tier="thorough", props=["C09", "C02"], timeout=3000, mem_gb=24, assumptions=C_SRC[:1] + C_RTE + ["Kani -Z restrict-vtable (virtual calls restricted to type-compatible targets)"],
+    tier="thorough", props=["C09", "C02"], timeout=900, mem_gb=16, assumptions=C_SRC[:1] + C_RTE + ["Kani -Z restrict-vtable (virtual calls restricted to type-compatible targets)"],
     flags=["-Z", "restrict-vtable"], replay="none", best_effort=True)
 
 
@@ -232,12 +232,12 @@ add("d2b_attribution_nest2_small", "transcode::stream",
     desc="D2 at nesting 2 with 3 events (collection > collection > failing entry): a collection child that reports a deserializer / serializer failure to its parent is attributed correctly - the inductive case the nesting-1 harness cannot produce",
     bounds="<= 3 events, nesting 2, one fault on either side at any position", functions=D_FUN,
     covers=["D2b deserializer fault two levels down", "D2b serializer fault two levels down"],
-    flags=NOCHK, props=["C11", "C12"], timeout=3600, mem_gb=40, assumptions=D_ASM, replay="stream", tier="thorough", best_effort=True)
+    flags=NOCHK, props=["C11", "C12"], timeout=900, mem_gb=16, assumptions=D_ASM, replay="stream", tier="thorough", best_effort=True)
 add("d2c_de_fault_nest2", "transcode::stream",
     desc="deserializer faults two levels down (collection > collection > failing entry): a collection child that reports a deserializer failure to its parent is attributed to the deserializer with its own error value - the inductive case for nesting depth that the nesting-1 harness cannot produce",
     bounds="<= 3 events, nesting 2, deserializer fault at any position (no serializer faults)", functions=D_FUN,
     covers=["D2c deserializer fault two levels down"], flags=NOCHK, props=[], thorough_props=["C11", "C12"], tier="thorough", best_effort=True,
-    timeout=2400, mem_gb=30, assumptions=D_ASM, replay="stream")
+    timeout=900, mem_gb=16, assumptions=D_ASM, replay="stream")
 add("d3_totality", "transcode::stream",
     desc="as D2 with all default checks on (take_parent/unwrap panics, memory safety, overflow)", bounds="<= 4 events, nesting 1, faults anywhere",
     functions=D_FUN, covers=["D serializer fault inside a collection"], props=["C04", "C12"], timeout=2400, mem_gb=16, assumptions=D_ASM, replay="stream", tier="thorough", best_effort=True)
@@ -246,7 +246,7 @@ add("d3_totality_small", "transcode::stream",
     bounds="<= 3 events, nesting 1, faults anywhere", functions=D_FUN, covers=["D deserializer fault inside a collection"],
     flags=["--no-memory-safety-checks", "-Z", "unstable-options"], props=["C04", "C12"], timeout=2400, mem_gb=16, assumptions=D_ASM, replay="stream")
 add("d4_nest2", "transcode::stream", desc="D2 at nesting 2 (best effort)", bounds="<= 4 events, nesting 2", functions=D_FUN,
-    covers=["D4 nesting two reached"], flags=NOCHK, tier="thorough", props=["C11", "C12", "C01"], timeout=3000, mem_gb=40, assumptions=D_ASM, replay="stream", best_effort=True)
+    covers=["D4 nesting two reached"], flags=NOCHK, tier="thorough", props=["C11", "C12", "C01"], timeout=900, mem_gb=16, assumptions=D_ASM, replay="stream", best_effort=True)
 
 E_FUN = ["transcode::value::Value::deserialize (Visitor: all visit_* methods, visit_seq, visit_map)", "transcode::value::Value::serialize"]
 add("e1_value_scalars", "transcode::value",
@@ -256,7 +256,7 @@ add("e1_value_scalars", "transcode::value",
 add("e2_value_structure", "transcode::value",
     desc="Value round trip of structure: deserializing an event sequence and serializing the Value yields the same events, order and roles; collections declare their exact length",
     bounds="<= 4 events, nesting 1, honest length hints <= 4", functions=E_FUN,
-    covers=["E2 map with an entry", "E2 seq with two elements"], flags=NOCHK, props=["C01", "C03"], timeout=3600, mem_gb=40,
+    covers=["E2 map with an entry", "E2 seq with two elements"], flags=NOCHK, props=["C01", "C03"], timeout=900, mem_gb=16,
     assumptions=D_ASM[:2], tier="thorough", best_effort=True)
 
 
@@ -271,7 +271,7 @@ add("f1_detect_order_slice", "detect",
     covers=["F1 TOML selected last", "F1 nothing detected", "F1 error from the YAML trial"], props=["C09", "C04"], timeout=300, mem_gb=8, assumptions=F_ASM, replay="none")
 add("f1_detect_order_reader", "detect", desc="F1 on a reader handle (Box<dyn Read>): additionally every trial re-reads byte 0 after the previous trial consumed it",
     bounds="all outcome combinations; reader handle over 0..2 symbolic bytes", functions=["detect::detect_format", "input::Handle::borrow_mut", "input::CaptureReader::read"],
-    covers=["F1 TOML selected last"], tier="thorough", props=["C09"], timeout=2400, mem_gb=24, assumptions=F_ASM, flags=["-Z", "restrict-vtable"], replay="none", best_effort=True)
+    covers=["F1 TOML selected last"], tier="thorough", props=["C09"], timeout=900, mem_gb=16, assumptions=F_ASM, flags=["-Z", "restrict-vtable"], replay="none", best_effort=True)
 # ---------------------------------------------------------------------------------------------
 # Family G - chunker buffer; Family H - libyaml read callback
 # ---------------------------------------------------------------------------------------------
@@ -339,11 +339,11 @@ add("i1_json_detect_slice", "json", overlay=DEP,
 add("i5_json_slice_loop", "json", overlay=DEP,
     desc="json::transcode slice branch: exactly one transcode_value per document, in input order; a syntax error or an output failure stops the loop and is returned; Ok exactly at a clean end",
     bounds="input 0..4 symbolic bytes, output failure at any document", functions=["json::transcode (slice branch)", "transcode::value::Value::deserialize"],
-    covers=["I5j three documents", "I5j syntax error after one document"], props=["C03", "C02"], timeout=3600, mem_gb=40, assumptions=I_ASM[:1], thorough_props=["C12"], tier="thorough", best_effort=True)
+    covers=["I5j three documents", "I5j syntax error after one document"], props=["C03", "C02"], timeout=900, mem_gb=16, assumptions=I_ASM[:1], thorough_props=["C12"], tier="thorough", best_effort=True)
 add("i4_json_output_framing", "json", overlay=DEP,
     desc="json::Output: token, newline per document through both entry points; short writes; write fault at any byte (incl. the newline) => Err with a prefix written",
     bounds="2 one-token documents, any short-write pattern, fault at any byte", functions=["json::Output::transcode_from", "json::Output::transcode_value"],
-    covers=["I4 json short writes", "I4 json newline write fails"], props=["C03", "C12"], timeout=3600, mem_gb=40, assumptions=I_ASM, tier="thorough", best_effort=True)
+    covers=["I4 json short writes", "I4 json newline write fails"], props=["C03", "C12"], timeout=900, mem_gb=16, assumptions=I_ASM, tier="thorough", best_effort=True)
 add("i2_yaml_routing", "yaml", overlay=DEP,
     desc="yaml::transcode slice input: exactly one route; the raw-bytes fast path only when Encoding::detect says UTF-8 (otherwise a slice is parsed differently from the same bytes through a reader)",
     bounds="input 0..4 symbolic bytes", functions=["yaml::transcode", "yaml::encoding::Encoding::detect"],
@@ -351,49 +351,49 @@ add("i2_yaml_routing", "yaml", overlay=DEP,
     assumptions=I_ASM[:1] + ["yaml::transcode_reader replaced by a stub recording that the re-encoding route was taken (the route itself is family B)"], replay="f3")
 add("i5_yaml_slice_loop", "yaml", overlay=DEP,
     desc="yaml::transcode fast path: one transcode_from per document in order; a failing document or output stops the loop", bounds="ASCII input 0..3 bytes, output failure at any document",
-    functions=["yaml::transcode (fast path)"], covers=["I5y three documents"], props=["C03"], timeout=3600, mem_gb=40, assumptions=I_ASM[:1], thorough_props=["C12"], tier="thorough", best_effort=True)
+    functions=["yaml::transcode (fast path)"], covers=["I5y three documents"], props=["C03"], timeout=900, mem_gb=16, assumptions=I_ASM[:1], thorough_props=["C12"], tier="thorough", best_effort=True)
 add("i4_yaml_output_framing", "yaml", overlay=DEP,
     desc="yaml::Output: '---' line before every document through both entry points; short writes deliver exactly the output; write fault at any byte => Err",
     bounds="2 one-token documents, any short-write pattern, fault at any byte", functions=["yaml::Output::transcode_from", "yaml::Output::transcode_value"],
-    covers=["I4 yaml short writes", "I4 yaml marker write fails midway"], props=["C03", "C12"], timeout=3600, mem_gb=40, assumptions=I_ASM, tier="thorough", best_effort=True)
+    covers=["I4 yaml short writes", "I4 yaml marker write fails midway"], props=["C03", "C12"], timeout=900, mem_gb=16, assumptions=I_ASM, tier="thorough", best_effort=True)
 add("i3_toml_output_first", "toml", overlay=DEP,
     desc="toml::Output, FIRST document: nothing is written unless the root is a table without nulls; exactly its rendering is written; the output is marked used before deserialization; a refused document renders and writes nothing",
     bounds="a document with root in {null,bool,int,seq,map,error}, <= 2 entries, null at any entry, either entry point; writer fault at any byte",
     functions=["toml::Output::transcode_from", "toml::Output::transcode_value", "toml::Output::ensure_one_use", "toml::Output::output_value"],
-    covers=["I3 empty table writes nothing and succeeds", "I3 table written", "I3 null in the second entry refused", "I3 array root refused"], props=["C08", "C11"], timeout=3600, mem_gb=40,
+    covers=["I3 empty table writes nothing and succeeds", "I3 table written", "I3 null in the second entry refused", "I3 array root refused"], props=["C08", "C11"], timeout=900, mem_gb=16,
     assumptions=I_ASM[:1] + ["toml model: Value built from serde events (root kind, entry count), nulls refused as in the real crate, to_string_pretty renders one byte per entry (empty table = empty string) or fails"], tier="thorough", best_effort=True)
 add("i3_toml_output_second", "toml", overlay=DEP,
     desc="toml::Output, SECOND document or input after a first one of any fate (incl. an empty table that wrote zero bytes): refused before anything is pulled from its deserializer/value, nothing more written",
     bounds="first: empty table / one-entry table / refused scalar; second: any document, either entry point",
     functions=["toml::Output::transcode_from", "toml::Output::transcode_value", "toml::Output::ensure_one_use"],
-    covers=["I3 valid table after an empty table is refused"], props=["C08"], timeout=3600, mem_gb=40, assumptions=I_ASM[:1], tier="thorough", best_effort=True)
+    covers=["I3 valid table after an empty table is refused"], props=["C08"], timeout=900, mem_gb=16, assumptions=I_ASM[:1], tier="thorough", best_effort=True)
 add("i3_toml_transcode_single_document", "toml", overlay=DEP,
     desc="toml::transcode: the whole input is one document handed to the output exactly once; invalid UTF-8 or a syntax error translates nothing",
     bounds="input 0..3 symbolic bytes", functions=["toml::transcode", "Cow::try_from(Handle)"], covers=["I3t three entries"], props=["C08", "C03"], timeout=900, mem_gb=12, assumptions=I_ASM[:1])
 add("f2_dispatch_msgpack", "", overlay=DEP,
     desc="Translator::translate for msgpack: naming the format skips detection and runs exactly its parser; a detected answer is dispatched exactly as if named; no answer / detection error => Err, nothing parsed, nothing written",
     bounds="format named or not, detection answers {none, error, this format}, 1-byte input", functions=["Translator::translate", "Translator::translate_slice", "Dispatcher"],
-    covers=["F2 unable to detect", "F2 detected format dispatched", "F2 named format dispatched"], props=["C09"], timeout=3600, mem_gb=40,
+    covers=["F2 unable to detect", "F2 detected format dispatched", "F2 named format dispatched"], props=["C09"], timeout=900, mem_gb=16,
     assumptions=I_ASM[:1] + ["detect_format replaced by a stub with a symbolic answer (its own logic is family F1)"], replay="none", tier="thorough", best_effort=True)
 add("f2_dispatch_json", "", overlay=DEP,
     desc="Translator::translate for json: naming the format skips detection and runs exactly its parser; a detected answer is dispatched exactly as if named; no answer / detection error => Err, nothing parsed, nothing written",
     bounds="format named or not, detection answers {none, error, this format}, 1-byte input", functions=["Translator::translate", "Translator::translate_slice", "Dispatcher"],
-    covers=["F2 unable to detect", "F2 detected format dispatched", "F2 named format dispatched"], props=["C09", "C03"], timeout=3600, mem_gb=40,
+    covers=["F2 unable to detect", "F2 detected format dispatched", "F2 named format dispatched"], props=["C09", "C03"], timeout=900, mem_gb=16,
     assumptions=I_ASM[:1] + ["detect_format replaced by a stub with a symbolic answer (its own logic is family F1)"], replay="none", tier="thorough", best_effort=True)
 add("f2_dispatch_yaml", "", overlay=DEP,
     desc="Translator::translate for yaml: naming the format skips detection and runs exactly its parser; a detected answer is dispatched exactly as if named; no answer / detection error => Err, nothing parsed, nothing written",
     bounds="format named or not, detection answers {none, error, this format}, 1-byte input", functions=["Translator::translate", "Translator::translate_slice", "Dispatcher"],
-    covers=["F2 unable to detect", "F2 detected format dispatched", "F2 named format dispatched"], props=["C09"], timeout=3600, mem_gb=40,
+    covers=["F2 unable to detect", "F2 detected format dispatched", "F2 named format dispatched"], props=["C09"], timeout=900, mem_gb=16,
     assumptions=I_ASM[:1] + ["detect_format replaced by a stub with a symbolic answer (its own logic is family F1)"], replay="none", tier="thorough", best_effort=True)
 add("f2_dispatch_toml", "", overlay=DEP,
     desc="Translator::translate for toml: naming the format skips detection and runs exactly its parser; a detected answer is dispatched exactly as if named; no answer / detection error => Err, nothing parsed, nothing written",
     bounds="format named or not, detection answers {none, error, this format}, 1-byte input", functions=["Translator::translate", "Translator::translate_slice", "Dispatcher"],
-    covers=["F2 unable to detect", "F2 detected format dispatched", "F2 named format dispatched"], props=["C09"], timeout=3600, mem_gb=40,
+    covers=["F2 unable to detect", "F2 detected format dispatched", "F2 named format dispatched"], props=["C09"], timeout=900, mem_gb=16,
     assumptions=I_ASM[:1] + ["detect_format replaced by a stub with a symbolic answer (its own logic is family F1)"], replay="none", tier="thorough", best_effort=True)
 add("i4_translator_two_inputs", "", overlay=DEP,
     desc="one Translator, two inputs in different formats, JSON target: the writer holds the ordered concatenation of the per-document translations; flush reaches the writer",
     bounds="first input 2 JSON documents, second 1 document (JSON or YAML); all token values", functions=["Translator::translate_slice", "Translator::flush", "Dispatcher (Output impl)"],
-    covers=["I4t two inputs translated"], props=["C03"], timeout=3600, mem_gb=40, assumptions=I_ASM[:1], tier="thorough", best_effort=True)
+    covers=["I4t two inputs translated"], props=["C03"], timeout=900, mem_gb=16, assumptions=I_ASM[:1], tier="thorough", best_effort=True)
 
 
 # ---------------------------------------------------------------------------------------------
